@@ -162,6 +162,9 @@ def tok_5(ctx, rep):
     rep.rule('TOK-5', 'tokenize_lines cannot leave before its epilogue: no return/raise, the last statement yields '
                       'the only ENDMARKER, preceded by the DEDENT loop over a copy of the indentation stack')
     f = ctx.prog.func(TOK, 'tokenize_lines')
+    if not any(g is f and _tname(fl.get('type', ast.Constant(''))) == 'ENDMARKER' for g, c, fl in token_constructions(ctx, TOK)):
+        raise AnalysisError('TOK-5: tokenize_lines does not construct the ENDMARKER itself (another tokenizer architecture): '
+                            'the epilogue rule cannot be applied')
     abrupt = [n for n in walk_own(f.node) if isinstance(n, (ast.Return, ast.Raise))]
     rep.ob('TOK-5', TOK, f.qual, 'no return / raise in tokenize_lines', not abrupt,
            'early exit %s skips the DEDENT / ENDMARKER epilogue' % (norm(abrupt[0]) if abrupt else ''))
